@@ -33,8 +33,10 @@ POOLS = {
     "email": ["admin@example.com", "ops@shop.example.org"],
     "uri": ["https://example.com/id", "spiffe://cluster.local/ns/default/sa/web"],
     "loc4": ["127.0.0.1", "192.0.2.1", "10.0.0.5"],
-    "loc6": ["::1", "2001:db8::1", "fe80::1%eth0"],
+    "loc6": ["::2", "2001:db8:ffff::1", "fe80::2%eth0"],  # disjoint from ip6 (tokens must stay distinct identities)
 }
+IDN_U = {"xn--bcher-kva.example": "bücher.example", "xn--og8h.sni.example": "🌈.sni.example",
+         "xn--fsqu00a.xn--0zwm56d": "例子.测试", "www.xn--mnchen-3ya.de": "www.münchen.de"}  # hand-checked pairs
 ORGS = ["Example Org", "Ö" * 3 + " GmbH & Co. KG", "O" * 100]
 CRLS = [None, "http://crl.example.com/a/b.crl?x=1", "ldap://[::1/cn=x", "http://crl.example.org"]
 TZ_NAMES = {0: "UTC", 14: "Etc/GMT-14", -11: "Etc/GMT+11", 5: "Etc/GMT-5"}
@@ -241,6 +243,8 @@ class Run:
         def before(name, data, nth):
             if name == "tls_start_client" and upcert is not None:
                 data.context.server.certificate_list = [mcerts.Cert(upcert)]  # what ServerTLSLayer stores
+            if name == "tls_start_client" and c.get("sni_u"):
+                data.context.client.sni = c["sni_u"]  # an addon (or the QUIC layer) handing over the U-label form
 
         addr = c["addr"]
         if addr is None:
@@ -307,7 +311,7 @@ class Run:
                 "nb": int((leaf.not_valid_before_utc - now).total_seconds()),
                 "na": int((leaf.not_valid_after_utc - now).total_seconds()),
                 "eku_server": eku_server, "verify": verify_class(v), "fresh": fresh, "icls": c["icls"],
-                "ca": "chain" if self.ca.startswith("chain") else "default"}
+                "ca": self.ca}
 
 
 def concretise(c: dict, tt: dict) -> dict:
@@ -315,7 +319,8 @@ def concretise(c: dict, tt: dict) -> dict:
     return {"sni": g(c["sni"]), "local": tt[c["local"]], "addr": g(c["addr"]), "upcn": g(c["upcn"]),
             "upcn_kind": kind(c["upcn"]) if c["upcn"] != "none" else None,
             "upsans": [(kind(t), tt[t]) for t in c["upsans"]], "uporg": bool(c.get("uporg")),
-            "upopt": bool(c["upopt"]), "icls": c["icls"]}
+            "upopt": bool(c["upopt"]), "icls": c["icls"],
+            "sni_u": IDN_U.get(g(c["sni"])) if c.get("ulabel") else None}
 
 
 class Check(core.PropertyCheck):
@@ -363,7 +368,7 @@ class Check(core.PropertyCheck):
         g = models[0].graph
         rng = random.Random(ctx.seed + 16)
         behs = g.edge_cover(rng, max_len=8, tail=4)
-        behs += g.random_walks(rng, 300 if ctx.quick else 4000, 6)
+        behs += g.random_walks(rng, 300 if ctx.quick else 1200, 6)
         seen = set()
         cands = []
         for b in behs:
@@ -383,26 +388,26 @@ class Check(core.PropertyCheck):
             for c in cs:
                 c["upsans"] = list(c["upsans"])
             cands.append((env, cs, pred))
-        if ctx.quick:
-            # every (environment, first connection) at least once; all follow-ups only after the first connections that
-            # can meet them in the cache (same upstream names / same SNI)
-            keep, have = [], set()
-            rng.shuffle(cands)
-            cands.sort(key=lambda t: -len(t[1]))
-            for env, cs, pred in cands:
-                first = (tuple(env), tuple(sorted((k, str(v)) for k, v in cs[0].items())))
-                hot = cs[0]["addr"] == "none" and cs[0]["sni"] in ("dns:1", "none") and cs[0]["upopt"]
-                if (hot and len(cs) > 1) or first not in have:
-                    keep.append((env, cs, pred))
-                    have.add(first)
-            cands = keep
+        # every (environment, first connection) at least once (thorough: with three different follow-ups); all follow-ups
+        # after the first connections that can meet them in the cache (same upstream names / same SNI)
+        keep, have = [], {}
+        rng.shuffle(cands)
+        cands.sort(key=lambda t: -len(t[1]))
+        per_first = 1 if ctx.quick else 3
+        for env, cs, pred in cands:
+            first = (tuple(env), tuple(sorted((k, str(v)) for k, v in cs[0].items())))
+            hot = cs[0]["addr"] == "none" and cs[0]["sni"] in ("dns:1", "none") and cs[0]["upopt"]
+            if (hot and len(cs) > 1) or have.get(first, 0) < per_first:
+                keep.append((env, cs, pred))
+                have[first] = have.get(first, 0) + 1
+        cands = keep
         for env, cs, pred in cands:
             yield core.Scenario({"ca": env[0], "tz": env[1], "conns": cs, "salt": rng.randrange(1 << 20),
                                  "org": rng.randrange(3), "crl": rng.randrange(len(CRLS))},
                                 predicted=pred, source="model")
         # beyond the model: more names per certificate, mixed case, longer sequences, random attributes
         rng = random.Random(ctx.seed + 1616)
-        for _ in range(150 if ctx.quick else 2500):
+        for _ in range(150 if ctx.quick else 1200):
             yield core.Scenario(self._random_scenario(rng), source="random")
 
     @staticmethod
@@ -428,6 +433,8 @@ class Check(core.PropertyCheck):
             loc = pick(["loc4", "loc6"])
             conns.append(conn(sni, loc, addr, upcn, tuple(dict.fromkeys(upsans)), rng.random() < 0.8,
                               uporg=(upcn != "none" or bool(upsans)) and rng.random() < 0.4))
+            if sni != "none" and kind(sni) == "idn" and rng.random() < 0.6:
+                conns[-1]["ulabel"] = True
         for c in conns:
             c["upsans"] = list(c["upsans"])
         return {"ca": rng.choice(["default", "default", "chain", "chain_nonski"]), "tz": rng.choice([0, 14, -11, 5]),
